@@ -72,6 +72,17 @@ Proof.
   apply find_some in E. destruct E as [Hin Hf]. rewrite (H x Hin) in Hf. discriminate.
 Qed.
 
+Lemma find_app_first : forall (A : Type) (f : A -> bool) a b n,
+    In n a -> f n = true -> (forall m, In m a -> f m = true -> m = n) ->
+    find f (a ++ b) = Some n.
+Proof.
+  intros A f. induction a as [|x a IH]; intros b n Hin Hf Hu; [destruct Hin|].
+  cbn [app find]. destruct (f x) eqn:Ex.
+  - f_equal. apply Hu; [left; reflexivity|exact Ex].
+  - destruct Hin as [->|Hin]; [congruence|].
+    apply IH; [exact Hin|exact Hf|]. intros m Hm. apply Hu. right. exact Hm.
+Qed.
+
 Lemma nodup_lt_length : forall (l : list nat) n,
     NoDup l -> (forall x, In x l -> x < n) -> length l <= n.
 Proof.
@@ -378,7 +389,8 @@ Lemma consistent_walk : forall w so st b,
     is_plain (w_objs w) (w_branch w) ->
     wf_state (w_objs w) st -> chain_ok (w_objs w) st ->
     state_of (w_objs w) so = Some st ->
-    repair_consistent w st ->
+    w_branch w = s_head st -> s_top st = s_head st ->
+    (s_applied st = [] -> nopatch_below (w_objs w) st (w_branch w)) ->
     stack_base (w_objs w) (w_branch w) st = Some b ->
     (exists stop,
         repair_walk (S (length (w_objs w))) (w_objs w) st b (w_branch w) [] [] []
@@ -387,17 +399,12 @@ Lemma consistent_walk : forall w so st b,
         repair_base (S (length (w_objs w))) (w_objs w) st b (w_branch w) (w_branch w) false
         = w_branch w).
 Proof.
-  intros w so st b Hclosed Hacyc Hbpl Hwf Hch Hst [Hbr [Htop Hno]] Hb.
+  intros w so st b Hclosed Hacyc Hbpl Hwf Hch Hst Hbr Htop Hno Hb.
   destruct Hwf as [[Hnd _] [_ [Hin [Hpc _]]]].
   destruct (s_applied st) as [|a0 l0] eqn:Ea.
   - (* nothing applied: no patch below the head *)
     unfold stack_base in Hb. rewrite Ea in Hb. injection Hb as <-.
-    assert (Hnp : nopatch_below (w_objs w) st (w_branch w)).
-    { intros x Hx. unfold patch_of_commit. apply find_none_intro. intros n Hn.
-      destruct (pm_get (s_patches st) n) as [po|] eqn:Ep; [|reflexivity].
-      destruct (Nat.eqb po x) eqn:E; [|reflexivity]. apply Nat.eqb_eq in E. subst po.
-      exfalso. apply (Hno n x); [|exact Ep|exact Hx].
-      unfold all_of in Hn. rewrite Ea in Hn. exact Hn. }
+    assert (Hnp : nopatch_below (w_objs w) st (w_branch w)) by (apply Hno; reflexivity).
     split.
     + cbn [rev]. apply (walk_nopatch (w_objs w) st (w_branch w) Hacyc Hclosed);
         [exact Hbpl|lia|exact Hnp].
@@ -424,19 +431,16 @@ Proof.
     pose proof (chain_older _ Hacyc _ _ _ Hchain Hpl) as Hold.
     exists base. rewrite Hbr, <- Htop.
     apply walk_on_chain2; [exact Hchain|exact Hpatch| | | |exact Hne].
-    + (* the commit of an applied patch is the commit of no other patch *)
-      intros n Hn. unfold patch_of_commit. apply find_unique.
-      * unfold all_of. apply in_or_app. left. exact Hn.
+    + (* the commit of an applied patch: the first name with that commit is the patch itself *)
+      intros n Hn. unfold patch_of_commit, all_of. apply find_app_first.
+      * exact Hn.
       * unfold patch_oid. destruct (pm_get (s_patches st) n) as [po|] eqn:Ep;
           [apply Nat.eqb_refl|exfalso; exact (Hpatch n Hn Ep)].
       * intros m Hm Hf.
         destruct (pm_get (s_patches st) m) as [po|] eqn:Ep; [|discriminate].
         apply Nat.eqb_eq in Hf. subst po.
-        unfold all_of in Hm. apply in_app_or in Hm. destruct Hm as [Hm|Hm].
-        -- apply (nodup_map_inj _ _ (patch_oid st) (s_applied st) m n Hndo Hm Hn).
-           unfold patch_oid at 1. rewrite Ep. reflexivity.
-        -- exfalso. apply (Hno m (patch_oid st n) Hm Ep). rewrite Hbr, <- Htop.
-           eapply chain_walked; [exact Hchain|]. unfold applied_oids. apply in_map. exact Hn.
+        apply (nodup_map_inj _ _ (patch_oid st) (s_applied st) m n Hndo Hm Hn).
+        unfold patch_oid at 1. rewrite Ep. reflexivity.
     + intros n Hn E.
       assert (Ho : In (patch_oid st n) (applied_oids st)) by (unfold applied_oids; apply in_map; exact Hn).
       specialize (Hold _ Ho). lia.
@@ -446,18 +450,33 @@ Proof.
       unfold applied_oids in Hlen. rewrite map_length in Hlen. lia.
 Qed.
 
-Lemma repair_consistent_noop_partial :
+(* what repair needs of the stack to be a no-op: the branch sits on the recorded head, which is
+   the top, and when nothing is applied no commit the walk visits is a patch *)
+Definition repair_settled (w : world) (st : sstate) : Prop :=
+  w_branch w = s_head st /\ s_top st = s_head st
+  /\ (s_applied st = [] -> nopatch_below (w_objs w) st (w_branch w)).
+
+Lemma consistent_settled : forall w st, repair_consistent w st -> repair_settled w st.
+Proof.
+  intros w st [Hbr [Htop Hno]]. split; [exact Hbr|]. split; [exact Htop|].
+  intros Ea x Hx. unfold patch_of_commit. apply find_none_intro. intros n Hn.
+  destruct (pm_get (s_patches st) n) as [po|] eqn:Ep; [|reflexivity].
+  destruct (Nat.eqb po x) eqn:E; [|reflexivity]. apply Nat.eqb_eq in E. subst po.
+  exfalso. apply (Hno n x); [|exact Ep|exact Hx].
+  unfold all_of in Hn. rewrite Ea in Hn. exact Hn.
+Qed.
+
+Lemma repair_settled_noop :
   forall lower_s w st w1,
-    Inv6 w -> prev_decreasing (w_objs w) ->
-    plain_parents_older (w_objs w) ->
+    Inv6 w -> plain_parents_older (w_objs w) ->
     cur_state w = Some st ->
-    repair_consistent w st ->
+    repair_settled w st ->
     run_repair lower_s w = (w1, X0) ->
     (exists st1, cur_state w1 = Some st1 /\ same_stack st1 st)
     /\ w_branch w1 = w_branch w /\ w_wt w1 = w_wt w /\ w_unmerged w1 = w_unmerged w
     /\ (forall n, pm_get (w_prefs w1) n = pm_get (s_patches st) n).
 Proof.
-  intros lower_s w st w1 I6 _ Hacyc Hcur Hcons H.
+  intros lower_s w st w1 I6 Hacyc Hcur Hcons H.
   destruct I6 as [[I Hch] _]. destruct I as [Hclosed [Hwf [Hbpl _]]].
   unfold cur_state in Hcur. destruct (w_stack w) as [so|] eqn:Es; [|discriminate].
   specialize (Hwf so st Hcur). specialize (Hch so st Hcur).
@@ -467,12 +486,12 @@ Proof.
   unfold open_stack in Hop. rewrite Es, Hcur in Hop.
   destruct (stack_base (w_objs w) (w_branch w) st) as [b|] eqn:Hb; [|discriminate].
   injection Hop as <-.
-  destruct (consistent_walk w so st b Hclosed Hacyc Hbpl Hwf Hch Hcur Hcons Hb)
+  destruct Hcons as [Hbr [Htop Hno]].
+  destruct (consistent_walk w so st b Hclosed Hacyc Hbpl Hwf Hch Hcur Hbr Htop Hno Hb)
     as [[stop Hwalk] Hnb].
   cbv zeta in H.
   cbn [op_world op_state op_base ensure_patch_refs w_objs w_branch w_apc] in H.
   rewrite Hwalk in H. rewrite rev_involutive in H. cbn [rev] in H.
-  destruct Hcons as [Hbr [Htop _]].
   destruct Hwf as [[Hnd _] [_ [Hin _]]].
   apply (repair_noop_txn lower_s (mkOpened (ensure_patch_refs w st) st b true) _ w1) in H.
   - cbn [op_world op_state ensure_patch_refs w_branch w_wt w_unmerged w_prefs] in H.
@@ -485,4 +504,120 @@ Proof.
   - exact Htop.
   - cbn [op_state]. intros n Hn. apply Hin. unfold all_of. apply in_or_app. left. exact Hn.
   - cbn [op_world op_state ensure_patch_refs w_branch]. exact Hnb.
+Qed.
+
+(* the pinned statement, under the extra hypothesis plain_parents_older *)
+Lemma repair_consistent_noop_partial :
+  forall lower_s w st w1,
+    Inv6 w -> prev_decreasing (w_objs w) ->
+    plain_parents_older (w_objs w) ->
+    cur_state w = Some st ->
+    repair_consistent w st ->
+    run_repair lower_s w = (w1, X0) ->
+    (exists st1, cur_state w1 = Some st1 /\ same_stack st1 st)
+    /\ w_branch w1 = w_branch w /\ w_wt w1 = w_wt w /\ w_unmerged w1 = w_unmerged w
+    /\ (forall n, pm_get (w_prefs w1) n = pm_get (s_patches st) n).
+Proof.
+  intros lower_s w st w1 I6 _ Hacyc Hcur Hcons H.
+  eapply repair_settled_noop; [exact I6|exact Hacyc|exact Hcur| |exact H].
+  apply consistent_settled. exact Hcons.
+Qed.
+
+(* ---------------------------------------------------------------- the pinned statement is false *)
+
+(* object 0 is a plain commit that is its own parent; object 1 records the empty stack on it *)
+Definition cx_c0 : commit := plain [0] [] 0%N [].
+Definition cx_st : sstate := empty_state 0.
+Definition cx_c1 : commit := mkCommit [0] [] 0%N [] (Some cx_st) MOp.
+Definition cx_w : world := mkWorld [cx_c0; cx_c1] 0 (Some 1) [] [] false 0 true.
+
+Lemma cx_state_of : forall so s, state_of (w_objs cx_w) so = Some s -> so = 1 /\ s = cx_st.
+Proof.
+  intros so s H. destruct so as [|[|so]].
+  - cbn in H. discriminate.
+  - cbn in H. injection H as <-. split; reflexivity.
+  - exfalso. unfold state_of, get in H. cbn [w_objs cx_w nth_error] in H.
+    destruct so; discriminate.
+Qed.
+
+Lemma cx_plain0 : is_plain (w_objs cx_w) 0.
+Proof. exists cx_c0. split; [reflexivity|]. split; [reflexivity|discriminate]. Qed.
+
+Lemma cx_plain_inv : forall o, is_plain (w_objs cx_w) o -> o = 0.
+Proof.
+  intros o [c [G [S _]]]. destruct o as [|[|o]]; [reflexivity| |].
+  - cbn in G. injection G as <-. discriminate.
+  - exfalso. unfold get in G. cbn [w_objs cx_w nth_error] in G. destruct o; discriminate.
+Qed.
+
+Lemma cx_inv6 : Inv6 cx_w /\ prev_decreasing (w_objs cx_w).
+Proof.
+  split; [split; [split; [split; [|split; [|split]]|]|]|].
+  - intros o p Ho Hp. apply cx_plain_inv in Ho. subst o. cbn in Hp.
+    destruct Hp as [<-|[]]. exact cx_plain0.
+  - intros so s Hs. apply cx_state_of in Hs. destruct Hs as [_ ->].
+    split; [split; [constructor|split; [constructor|intros a b []]]|].
+    split; [constructor|]. split.
+    + intros n. split; [intros []|]. intros Hn. exfalso. apply Hn. reflexivity.
+    + split; [intros n o Hn; discriminate|exact cx_plain0].
+  - exact cx_plain0.
+  - exists cx_st. reflexivity.
+  - intros so s Hs. apply cx_state_of in Hs. destruct Hs as [_ ->]. exists 0. reflexivity.
+  - cbn [w_stack cx_w]. intros so s _ Hs. apply cx_state_of in Hs. destruct Hs as [-> ->].
+    split; [intros n o Hn; discriminate|]. split; [|apply reach_refl].
+    eapply reach_step; [|apply reach_refl]. cbn. left. reflexivity.
+  - intros so s p Hs Hp. apply cx_state_of in Hs. destruct Hs as [_ ->]. discriminate.
+Qed.
+
+Lemma cx_consistent : cur_state cx_w = Some cx_st /\ repair_consistent cx_w cx_st.
+Proof.
+  split; [reflexivity|]. split; [reflexivity|]. split; [reflexivity|]. intros n o [].
+Qed.
+
+(* ... and repair turns commit 0 into an applied patch "patch" *)
+Lemma cx_repair :
+  snd (run_repair (fun s => s) cx_w) = X0
+  /\ option_map s_applied (cur_state (fst (run_repair (fun s => s) cx_w)))
+     = Some [[112; 97; 116; 99; 104]%N].
+Proof. vm_compute. split; reflexivity. Qed.
+
+Theorem repair_consistent_noop_refuted :
+  ~ (forall lower_s w st w1,
+        Inv6 w -> prev_decreasing (w_objs w) ->
+        cur_state w = Some st ->
+        repair_consistent w st ->
+        run_repair lower_s w = (w1, X0) ->
+        (exists st1, cur_state w1 = Some st1 /\ same_stack st1 st)
+        /\ w_branch w1 = w_branch w /\ w_wt w1 = w_wt w /\ w_unmerged w1 = w_unmerged w
+        /\ (forall n, pm_get (w_prefs w1) n = pm_get (s_patches st) n)).
+Proof.
+  intros Hall.
+  destruct cx_inv6 as [I6 PD]. destruct cx_consistent as [Hc Hr]. destruct cx_repair as [Hx Ha].
+  destruct (run_repair (fun s => s) cx_w) as [w1 x] eqn:E. cbn [fst snd] in Hx, Ha. subst x.
+  destruct (Hall (fun s => s) cx_w cx_st w1 I6 PD Hc Hr E) as [[st1 [Hc1 [Happ _]]] _].
+  rewrite Hc1 in Ha. cbn [option_map] in Ha. rewrite Happ in Ha. discriminate.
+Qed.
+
+(* ---------------------------------------------------------------- non-vacuity *)
+
+Definition nv_p0 : str := [112; 48]%N.
+Definition nv_p1 : str := [112; 49]%N.
+Definition nv_p2 : str := [112; 50]%N.
+Definition rn_w : world :=
+  run (fun s => s) (init_world [1; 1; 0]%N)
+      [CInit; CNew nv_p0 1%N [120]%N; CNew nv_p1 2%N [121]%N; CNew nv_p2 3%N [122]%N;
+       CPop None None false false false].
+
+Example repair_noop_nonvacuous : exists w st w1,
+    cur_state w = Some st /\ w_branch w = s_head st /\ s_top st = s_head st
+    /\ length (s_applied st) = 2 /\ length (s_unapplied st) = 1
+    /\ run_repair (fun s => s) w = (w1, X0).
+Proof.
+  exists rn_w.
+  destruct (cur_state rn_w) as [st|] eqn:Ec; [|vm_compute in Ec; discriminate].
+  exists st, (fst (run_repair (fun s => s) rn_w)).
+  vm_compute in Ec. injection Ec as <-.
+  split; [reflexivity|]. split; [vm_compute; reflexivity|]. split; [vm_compute; reflexivity|].
+  split; [reflexivity|]. split; [reflexivity|].
+  vm_compute. reflexivity.
 Qed.
